@@ -93,7 +93,7 @@ pub fn check(ctx: &mut Ctx, cfg: &Cfg, how: How) {
         Err(p) => ctx.violate(
             "parse-back",
             kind,
-            &format!("panic@{}{unrep}", crate::drive::site_file(&p.site)),
+            &format!("{}{unrep}", crate::drive::panic_feature(&p)),
             case,
             "the matching parser accepts the bytes and every accessor returns",
             format!("panic at {}: {} (bytes {})", crate::drive::short_site(&p.site), p.msg, crate::json::hex(&bytes[..bytes.len().min(80)])),
